@@ -7,6 +7,7 @@
 set -u
 export CARGO_NET_OFFLINE=true
 H=/verif/harness
+if [ "${1:-}" = replay ] && [ -n "${2:-}" ]; then set -- replay "$(readlink -f "$2")"; fi
 cd "$H" || { echo "INCONCLUSIVE: no harness dir"; exit 2; }
 
 build_profile() {
@@ -20,11 +21,25 @@ build_profile() {
   fi
 }
 
+# third configuration: release + `-C target-cpu=native`, so that code selected by cfg(target_feature = ..) is compiled and
+# exercised too (own target dir; RUSTFLAGS replaces the build.rustflags of .cargo/config.toml, hence the --cfg again)
+build_native() {
+  [ "${VERIF_NATIVE:-1}" = 0 ] && return 0
+  local log="$H/target/build-native.log"
+  mkdir -p "$H/target"
+  if ! SM9VERIF_VARIANT=native RUSTFLAGS="--cfg john_yu_sm9_core_verif -C target-cpu=native" \
+       flock "$H/target/.build-native.lock" cargo build --offline --release --target-dir "$H/target-native" >"$log" 2>&1; then
+    echo "INCONCLUSIVE: harness build (native) failed; see $log"
+    grep -E "^error" -A8 "$log" | head -40
+    exit 2
+  fi
+}
+
 needs_dbg() { case "$1" in C08|C18|c08|c18) return 0;; *) return 1;; esac; }
 
 case "${1:-}" in
   build)
-    build_profile release; build_profile dbg; echo "build ok"; exit 0;;
+    build_profile release; build_profile dbg; build_native; echo "build ok"; exit 0;;
   replay)
     [ $# -ge 2 ] || { echo "usage: run.sh replay <file>"; exit 2; }
     build_profile release
@@ -33,6 +48,9 @@ case "${1:-}" in
       id=$(python3 -c "import json,sys;print(json.load(open(sys.argv[1])).get('property',''))" "$2" 2>/dev/null)
       if needs_dbg "$id"; then build_profile dbg; "$H/target/dbg/sm9check" replay "$2"; rc=$?; fi
     fi
+    if [ $rc -eq 0 ] && [ "${VERIF_NATIVE:-1}" != 0 ]; then
+      build_native; "$H/target-native/release/sm9check" replay "$2"; rc=$?
+    fi
     exit $rc;;
   "") echo "usage: run.sh <ID> quick|thorough | replay <file> | build"; exit 2;;
 esac
@@ -40,6 +58,7 @@ esac
 ID="$1"; TIER="${2:-${VERIF_TIER:-quick}}"
 build_profile release
 if needs_dbg "$ID"; then build_profile dbg; fi
+build_native
 "$H/target/release/sm9check" run "$ID" "$TIER"; rc=$?
 if [ $rc -ne 0 ]; then exit $rc; fi
 if [ "$TIER" = thorough ] && [ -x /verif/fuzz/campaign.sh ]; then
